@@ -46,6 +46,9 @@ def gen_lengths(c, L, edge):
             c.add('zip-owned', f'{n}-{m}', f'fn p(a: GA<u8, {U(n)}>, b: GA<u8, {U(m)}>) {{ let _ = a.zip(b, |x, y| x.wrapping_add(y)); }}', ok, pair=f'zip-owned:{n}-{n}')
             c.add('zip-ref', f'{n}-{m}', f'fn p(a: &GA<u8, {U(n)}>, b: &GA<u8, {U(m)}>) {{ let _ = a.zip(b, |x, y| x.wrapping_add(*y)); }}', ok, pair=f'zip-ref:{n}-{n}')
             c.add('zip-mixed', f'{n}-{m}', f'fn p(a: GA<u8, {U(n)}>, b: &mut GA<u8, {U(m)}>) {{ let _ = a.zip(b, |x, y| x.wrapping_add(*y)); }}', ok, pair=f'zip-mixed:{n}-{n}')
+            c.add('inverted_zip', f'{n}-{m}', f'fn p(a: GA<u8, {U(n)}>, b: GA<u8, {U(m)}>) {{ let _ = GenericSequence::inverted_zip(b, a, |x: u8, y: u8| x.wrapping_add(y)); }}', ok, pair=f'inverted_zip:{n}-{n}')
+            c.add('inverted_zip2', f'{n}-{m}', f'fn p(a: GA<u8, {U(n)}>, b: GA<u8, {U(m)}>) {{ let _ = GenericSequence::inverted_zip2(b, a, |x: u8, y: u8| x.wrapping_add(y)); }}', ok, pair=f'inverted_zip2:{n}-{n}')
+            c.add('inverted_zip2-ref', f'{n}-{m}', f'fn p(a: &GA<u8, {U(n)}>, b: GA<u8, {U(m)}>) {{ let _ = GenericSequence::inverted_zip2(b, a, |x: &u8, y: u8| x.wrapping_add(y)); }}', ok, pair=f'inverted_zip2-ref:{n}-{n}')
             c.add('eq', f'{n}-{m}', f'fn p(a: GA<u8, {U(n)}>, b: GA<u8, {U(m)}>) -> bool {{ a == b }}', ok, pair=f'eq:{n}-{n}')
             c.add('lt', f'{n}-{m}', f'fn p(a: GA<u8, {U(n)}>, b: GA<u8, {U(m)}>) -> bool {{ a < b }}', ok, pair=f'lt:{n}-{n}')
             c.add('cmp', f'{n}-{m}', f'fn p(a: GA<u8, {U(n)}>, b: GA<u8, {U(m)}>) -> core::cmp::Ordering {{ core::cmp::Ord::cmp(&a, &b) }}', ok, pair=f'cmp:{n}-{n}')
